@@ -6,10 +6,11 @@ import XlModel.Lemmas.Sheets
 namespace XlModel.Sheets
 open XlModel
 
-theorem invC_append (c : Core) (h : InvC c) (n : Name) (rid : Nat) (hv : validName n = true)
+theorem invC_append (c : Core) (h : InvC c) (n : Name) (sid rid : Nat) (hv : validName n = true)
+    (hsid : maxOf (c.sheets.map (·.id)) < sid)
     (hf : ∀ sh ∈ c.sheets, fold sh.name ≠ fold n) :
     InvC ⟨c.count + 1, c.activeTab,
-      c.sheets ++ [⟨n, maxOf (c.sheets.map (·.id)) + 1, rid, Vis.visible⟩], c.defs⟩ where
+      c.sheets ++ [⟨n, sid, rid, Vis.visible⟩], c.defs⟩ where
   nonempty := by simp
   count_eq := by simp [h.count_eq]
   active_lt := by have := h.active_lt; simp; omega
@@ -322,19 +323,33 @@ theorem setCell_core (s s' : St) (n : Name) (v : Nat) (h : setCell s n v = .ok s
 theorem observe_core (s : St) : core (observe s) = core s := by
   unfold observe; split <;> rfl
 
+theorem getDefinedNameScope_lt (s : St) (sc : Name) (loc : Option Nat) (h : getDefinedNameScope s sc = .ok loc) :
+    ∀ l, loc = some l → l < s.sheets.length := by
+  unfold getDefinedNameScope at h
+  split at h
+  · cases h; intro l hl; cases hl
+  · split at h
+    · cases h
+    · cases h
+    · rename_i i hg
+      cases h
+      intro l hl
+      cases hl
+      exact idxOf?_lt _ _ _ (getSheetIndex_ok _ _ _ hg).2.symm
+
 theorem setDefinedName_core (s s' : St) (k : Nat) (sc : Name) (h : setDefinedName s k sc = .ok s') :
     ∃ loc, (∀ l, loc = some l → l < s.sheets.length) ∧
       core s' = ⟨s.count, s.activeTab, s.sheets, s.defs ++ [⟨k, loc⟩]⟩ := by
   unfold setDefinedName at h
-  dsimp only at h
   split at h
   · cases h
-  · cases h
-    refine ⟨_, ?_, rfl⟩
-    intro l hl
-    split at hl
-    · cases hl
-    · exact sheetIndexD_lt s sc l hl
+  · split at h
+    · cases h
+    · rename_i loc hloc
+      split at h
+      · cases h
+      · cases h
+        exact ⟨loc, getDefinedNameScope_lt s sc loc hloc, rfl⟩
 
 /-- every API call preserves the list invariant -/
 theorem step_inv (s : St) (op : Op) (h : Inv s) : Inv (step s op).1 := by
@@ -346,7 +361,7 @@ theorem step_inv (s : St) (op : Op) (h : Inv s) : Inv (step s op).1 := by
     · rename_i s' r hn
       rcases newSheet_core s s' n r hn with rfl | ⟨hv, hf, rid, hc⟩
       · exact h
-      · rw [hc]; exact invC_append (core s) h n rid hv hf
+      · rw [hc]; exact invC_append (core s) h n (newSheetID s) rid hv (newSheetID_gt s) hf
     · exact h
   | delete n =>
     simp only [step]
